@@ -27,3 +27,16 @@ TWINS = [
     T("hex-vs-decimal-constant", F, "    rcon[1] = 0x01\n    for i in range(2, max_rounds + 1):", "    rcon[1] = 1\n    for i in range(2, max_rounds + 1):"),
     T("guard-order-swapped", F, "    if len(iv) != 16:\n        raise ValueError(\"AES CBC requires 16-byte IV\")\n    if len(data) % 16 != 0:\n        raise ValueError(\"AES CBC requires data length multiple of 16\")\n    round_keys = _get_round_keys(key)\n    data_view = memoryview(data)\n    out = bytearray(len(data_view))\n    prev = iv\n    offset = 0\n    for block in _chunks(data_view, 16):\n        xored", "    if len(data) % 16 != 0:\n        raise ValueError(\"AES CBC requires data length multiple of 16\")\n    if len(iv) != 16:\n        raise ValueError(\"AES CBC requires 16-byte IV\")\n    round_keys = _get_round_keys(key)\n    data_view = memoryview(data)\n    out = bytearray(len(data_view))\n    prev = iv\n    offset = 0\n    for block in _chunks(data_view, 16):\n        xored"),
 ]
+
+# --- seeded changes kept under /verif/seeded (sub-agents saw only the property text); each must be reported by the named rule
+import os as _os
+from sa.selftest.harness import P as _P
+_SEEDS = _os.path.join(_os.path.dirname(_os.path.dirname(_os.path.dirname(_os.path.abspath(__file__)))), "seeded")
+SEEDED = [
+    ("C20-1", "C20-KEY"),
+    ("C20-2", "C20-WRAP"),
+    ("C20-3", "C20-LEN"),
+    ("C20-4", "C20-MODE"),
+    ("C20-5", "C20-WRAP"),
+]
+MUTANTS = list(MUTANTS) + [_P("seed-" + sid, _os.path.join(_SEEDS, sid, "patch.diff"), rule) for sid, rule in SEEDED if _os.path.exists(_os.path.join(_SEEDS, sid, "patch.diff"))]
